@@ -198,8 +198,13 @@ func (m *mux) ensureContext(r *http.Request) *chi.Context {
 	if ctx.RoutePattern() != "" {
 		return ctx // already initialized
 	}
-	if !m.Router.Match(ctx, r.Method, r.URL.Path) {
+	// The request has not been routed yet (a middleware is asking). Look the
+	// route up in a scratch context: chi appends to the context it is given,
+	// so using the context of the request would record the pattern and the
+	// parameters a second time when chi routes the request.
+	lookup := chi.NewRouteContext()
+	if !m.Router.Match(lookup, r.Method, r.URL.Path) {
 		return nil // route not handled by chi
 	}
-	return ctx
+	return lookup
 }
